@@ -47,7 +47,8 @@ structure TexHeader where
   depth : Nat
   deriving Repr, Inhabited
 
-def texFormats : List Nat := [0x1440, 0x1450, 0x3420, 0x3431, 0x6230]
+/-- `TextureFormat` discriminants (T2: `Generated/C18Enums.lean`; 0x1440, 0x1450, 0x3420, 0x3431, 0x6230) -/
+def texFormats : List Nat := Generated.C18.texFormats
 
 /-- `TexHeader` (80 bytes on the wire; `size_of::<TexHeader>()` is 80 as well) -/
 def texHeader : P TexHeader := do
